@@ -19,7 +19,9 @@ ASSUMPTIONS = [
 
 class H(obsfam.ObsHarness):
     def check(self, res):
-        return self.base_check(res) + obsfam.check_dispatch(self, res, c04=True, c05=False)
+        # "registered for that watch at the time it is dispatched": the callback-after-removal clause of the
+        # shared oracle is part of C04's routing rule as well
+        return self.base_check(res) + obsfam.check_dispatch(self, res, c04=True, c05=True)
 
 
 def programs(tier):
@@ -36,6 +38,9 @@ def programs(tier):
     P.append(("1w2h-reent-remove-self", dict(base1, reentrant={("h1", 0): ("remove", "h1", "w0")})))
     P.append(("1w2h-reent-add", dict(init=[S("h0", "w0")], scripts={"w0": ["x", "y"]},
                                      reentrant={("h0", 0): ("add", "h1", "w0")})))
+    for caller in ("h0", "h1"):
+        for op in (("unschedule", "w0"), ("unschedule_all",), ("stop",)):
+            P.append((f"1w2h-reent-{op[0]}-by-{caller}", dict(base1, reentrant={(caller, 0): op})))
     # 2 watches, 1 shared handler
     base2 = dict(init=[S("h0", "w0"), S("h0", "w1")], scripts={"w0": ["x", "y"], "w1": ["x"]})
     P.append(("2w1h", dict(base2)))
